@@ -24,8 +24,21 @@ OPS = [
 ]
 
 
+def docstring_lines(text):
+    skip = set()
+    for node in ast.walk(ast.parse(text)):
+        if isinstance(node, (ast.FunctionDef, ast.ClassDef, ast.Module, ast.AsyncFunctionDef)) and node.body and \
+                isinstance(node.body[0], ast.Expr) and isinstance(getattr(node.body[0], 'value', None), ast.Constant) and \
+                isinstance(node.body[0].value.value, str):
+            skip.update(range(node.body[0].lineno, node.body[0].end_lineno + 1))
+    return skip
+
+
 def mutants(src_lines, lo, hi):
+    skip = docstring_lines(''.join(src_lines))
     for ln in range(lo - 1, hi):
+        if ln + 1 in skip:
+            continue
         line = src_lines[ln]
         code = line.split('#')[0]
         if not code.strip() or code.strip().startswith(('"""', "'''", 'def ', 'class ', '@', 'import ', 'from ')):
